@@ -23,6 +23,7 @@ fn sys_stats(out: &mut Out, spec: &SysSpec) {
 
 pub fn run_system(out: &mut Out, r: &mut Rng, spec: &SysSpec, bound: usize, wild: usize, sample: bool) {
     let log = new_log();
+    srh::table_actor::BUILDER_ORDER.store((spec.tables.len() + spec.init_envs.len() + spec.max_crashes) as u8 % 3, std::sync::atomic::Ordering::Relaxed);
     let model = spec.model(spec.table_actors::<TMsg>(Some(&log)));
     let sx = spec.to_sx(&[]);
     let g = explore(&model, bound, &tstate_sx, Some(&log));
